@@ -96,6 +96,8 @@ def pair_from(rng, n, kind):
         b = base.rand_nat(rng, max(1, n - rng.randrange(1, max(2, n // 2 + 1)))) or 1
         a = b * (((1 << (64 * n)) - 1) // b - rng.getrandbits(3) if rng.random() < 0.5 else max(1, ((1 << (64 * n - 1)) // b)))
     elif kind == "smallb": a = base.rand_nat(rng, n) | 1 << (64 * n - 1); b = base.rand_nat(rng, max(1, n // 2 - rng.randrange(0, 3))) or 1
+    elif kind == "halfb":     # b just above s limbs: one division step lands at n = s + 1 or s + 2 (final loops after an empty while)
+        a = base.rand_nat(rng, n) | 1 << (64 * n - 1); bl = min(n, n // 2 + rng.choice([2, 2, 3])); b = base.rand_nat(rng, bl) | 1 << (64 * bl - 1 - rng.randrange(64))
     elif kind == "close":
         a = base.rand_nat(rng, n) | 1 << (64 * n - 1); b = a - (rng.getrandbits(64 * rng.randrange(1, n + 1)) % a)
     elif kind == "bigq":      # quotients of several limbs in the middle of the expansion
@@ -113,7 +115,7 @@ def pair_from(rng, n, kind):
     if max(a, b) < 1 << (64 * (n - 1)): a |= 1 << (64 * n - 1 - rng.randrange(64))
     return a, b
 
-KINDS = ["fib", "cf", "cfg", "rand", "runs", "equal", "double", "multiple", "smallb", "close", "bigq"]
+KINDS = ["fib", "cf", "cfg", "rand", "runs", "equal", "double", "multiple", "smallb", "halfb", "close", "bigq"]
 
 def gen_ops(rng, tier, ctx=None):
     th = base.thresholds(ctx)
@@ -222,6 +224,12 @@ def gen_ops(rng, tier, ctx=None):
             r = rng.getrandbits(64 * rng.randrange(0, s + 1))
             q = rng.randrange(2, 1 << 20)
             if (q * d + r).bit_length() <= 64 * n: a, b = d, q * d + r
+        if k == 5 and s + 2 <= n:      # add-back with carry into a new limb (bp[an++] = cy): hgcd2 fails because a is one limb shorter
+            n = s + 2
+            d = (1 << (64 * (s + 1))) - 1 - rng.getrandbits(rng.choice([1, 8, 40]))
+            r = ((1 << (64 * (s + 1))) - d) + rng.getrandbits(64 * rng.randrange(0, s + 1) if s > 0 else 1) % (1 << (64 * s))
+            q = (1 << 64) - 1 - rng.getrandbits(rng.choice([0, 3, 30]))
+            if r < d and r.bit_length() <= 64 * s and (q * d + r).bit_length() <= 64 * n and (q * d + r) >> (64 * n - 1): a, b = d, q * d + r
         if k == 3:      # exact division
             d = base.rand_nat(rng, max(s + 1, 1)) | 1 << (64 * (s + 1) - 1) if s + 1 <= n else 1
             q = rng.randrange(2, 1 << 30)
